@@ -4,7 +4,7 @@ From Coq Require Import String List NArith ZArith Bool Permutation.
 From J5V.lib Require Import Outcome.
 From J5V.model Require Import ReflectDesc ReflectSchema Reflect ReflectOwn ReflectSpec.
 From J5V.gen Require ReflectGen.
-From J5V.proofs Require Import ReflectProofs ExportProofs ReflectInvProofs ReflectPathProofs ReflectFuelProofs ReflectFlattenProofs ReflectCodecProofs ReflectDeclProofs ReflectClassProofs ReflectOrderProofs ReflectWeakProofs ReflectOwnProofs.
+From J5V.proofs Require Import ReflectProofs ExportProofs ReflectInvProofs ReflectPathProofs ReflectFuelProofs ReflectFlattenProofs ReflectCodecProofs ReflectDeclProofs ReflectClassProofs ReflectOrderProofs ReflectWeakProofs ReflectOwnProofs ReflectDeclSpecProofs.
 From J5V.model Require Import Export ReflectDecl.
 Import ListNotations.
 
@@ -221,6 +221,38 @@ Theorem C18_reader_links_the_declared_schemas : forall D, wf_keys D -> forall fs
        lookup S (ex_key e) = Some (Linked (decl_oneof_of m e))).
 Proof. exact reflect_declared. Qed.
 Print Assumptions C18_reader_links_the_declared_schemas.
+
+(* ---- what messageProperties computes, stated WITHOUT its machinery (no table of exposed oneofs, no
+   pending flags, no deferred insertion; proofs/ReflectDeclSpecProofs.v):
+     spec_names    a field that is not a member of an exposed real oneof is a property under its JSON name at
+                   its place; an exposed real oneof is ONE property, under its lower-camel name, standing where
+                   the FIRST of its members stands;
+     spec_members  the members of an exposed oneof are the singular fields contained in it, in declaration
+                   order, and they are the properties of the oneof's own schema; an exposed oneof without a
+                   member is an error (so the member list is never empty).
+   First for the state-free declared schema (no hypothesis), then for the reader (wf_keys: every linked
+   message entry of a successful reflection, with the schemas of its exposed oneofs in the set). *)
+Theorem C18_declared_properties_have_the_specified_shape : forall D m exs ps,
+  decl_props D m = ROk (exs, ps) ->
+  map p_json ps = spec_names m [] (m_fields m) /\
+  map ex_idx exs = map ex_idx (decl_exposed m 0 (m_oneofs m)) /\
+  (forall e, In e exs ->
+     is_exposed m (ex_idx e) = true /\
+     map p_json (ex_props e) = map f_json (spec_members m (ex_idx e) (m_fields m)) /\
+     spec_members m (ex_idx e) (m_fields m) <> []).
+Proof. exact decl_props_shape. Qed.
+Print Assumptions C18_declared_properties_have_the_specified_shape.
+
+Theorem C18_reflected_properties_have_the_specified_shape : forall D, wf_keys D -> forall fs S m r,
+  reflect D fs = Ok S -> In m (d_msgs D) -> lookup S (msg_key m) = Some (Linked r) ->
+  map p_json (root_props r) = spec_names m [] (m_fields m) /\
+  forall exs ps e, decl_props D m = ROk (exs, ps) -> In e exs ->
+    is_exposed m (ex_idx e) = true /\
+    exists ro, lookup S (ex_key e) = Some (Linked ro) /\
+               map p_json (root_props ro) = map f_json (spec_members m (ex_idx e) (m_fields m)) /\
+               root_props ro <> [].
+Proof. exact reflected_message_shape. Qed.
+Print Assumptions C18_reflected_properties_have_the_specified_shape.
 
 (* ---- cache transparency (SchemaCache.Schema), in full (hypothesis wf_keys): whatever calls were made
    before (successful and failed, any messages, any order: [cache_reach]), the cache answers a message
@@ -588,4 +620,31 @@ Proof.
   eexists. eexists. split; [left; reflexivity|]. split; [right; left; reflexivity|].
   cbv zeta. split; [apply reach_call; [apply reach_new|right; left; reflexivity]|].
   eexists. split; [vm_compute; reflexivity|]. split; vm_compute; reflexivity.
+Qed.
+
+(* the shape theorems on an example: message M { a; oneof pick (exposed) { x }; b; oneof pick { y } }: the
+   properties of M are [a; pick; b] (the oneof stands where its first member x stands), the properties of
+   the oneof schema M_pick are [x; y] *)
+Definition shape_desc : desc :=
+  {| d_msgs := [
+       Msg (bytes "p.v1.M") (bytes "p.v1") [bytes "M"]
+         [Fld (bytes "a") (bytes "a") 1 KString CSingle None TNone ex_fopts [];
+          Fld (bytes "x") (bytes "x") 2 KString CSingle (Some 0%N) TNone ex_fopts [];
+          Fld (bytes "b") (bytes "b") 3 KString CSingle None TNone ex_fopts [];
+          Fld (bytes "y") (bytes "y") 4 KString CSingle (Some 0%N) TNone ex_fopts []]
+         [Oneof (bytes "pick") (bytes "pick") false (Some true) []] None None []];
+     d_enums := [];
+     d_files := [File (bytes "p/v1/a.proto") (bytes "p.v1") [bytes "p.v1.M"] []] |}.
+Definition shape_m : msgd := nth 0 (d_msgs shape_desc) (Msg [] [] [] [] [] None None []).
+Example C18_example_shape :
+  wf_keys shape_desc /\
+  spec_names shape_m [] (m_fields shape_m) = [bytes "a"; bytes "pick"; bytes "b"] /\
+  map f_json (spec_members shape_m 0%N (m_fields shape_m)) = [bytes "x"; bytes "y"] /\
+  exists S r ro, reflect shape_desc (d_files shape_desc) = Ok S /\
+    lookup S (bytes "p.v1", bytes "M") = Some (Linked r) /\ map p_json (root_props r) = [bytes "a"; bytes "pick"; bytes "b"] /\
+    lookup S (bytes "p.v1", bytes "M_pick") = Some (Linked ro) /\ map p_json (root_props ro) = [bytes "x"; bytes "y"].
+Proof.
+  split; [apply wf_desc_b_sound; vm_compute; reflexivity|]. split; [vm_compute; reflexivity|]. split; [vm_compute; reflexivity|].
+  eexists. eexists. eexists. split; [vm_compute; reflexivity|]. split; [vm_compute; reflexivity|].
+  split; [vm_compute; reflexivity|]. split; vm_compute; reflexivity.
 Qed.
